@@ -39,6 +39,13 @@ CHECKS = {
         note="Scheduling points only inside mem_orchestrator/mem_broker/mem_state_backend (memory) or at SQL statements (SQLite); other code touches thread-local data only. Background history writers run last (explored as actors in C10). Bounds, not randomised schedules, for N up to 4. SQLite's own atomicity trusted; busy handler emulated by blocking.",
         design_ref="§2 C02",
     ),
+    "C06": dict(
+        engine="bfs+sched",
+        technique="explicit-state BFS over submit/batch/poll/start/finish/fail/kill histories with parked task bodies on both backends (from the empty and from seeded non-initial states) + deviation-bounded schedule exploration of two poller+worker actors with the RUNNING-per-key invariant evaluated on the visible concrete state at every scheduling point",
+        text="Histories: per (TASK|ARGUMENTS|KEYS) x reroute option, BFS (depth 4/5 from the empty history, 2/3 from 5 seeded states such as 'one running, one queued', 'retry behind a pending one', 'rerouted behind a pending one') over single and batch submissions, polls of two runners, start (body parked in a real thread so RUNNING is a state), finish, retriable failure, kill-and-reroute; results and read-outs compared between the two backends; on the real state: <= 1 RUNNING per key, polls never raise, what a poll took and did not hand out is CONCURRENCY_CONTROLLED_FINAL or re-queued available, nothing is blocked or handed out against the same-key rule. Schedules: two poller+worker actors over same-key / different-key / already-both-PENDING invocations, all schedules with <= 1 (2) deviations, invariant read from the records dict / a separate SQLite connection at every scheduling point.",
+        note="Nine recorded findings (known_findings.json): a blocked RETRY or REROUTED invocation makes the poll raise because the documented lifecycle lacks the edge. Trigger-launched submissions use the single-call path and are not enumerated separately. History writers run last here (C10 explores them).",
+        design_ref="§2 C06",
+    ),
     "C07": dict(
         engine="bfs",
         technique="explicit-state BFS over submission/claim/finish histories per registration configuration on both backends against a reference dict key -> REGISTERED invocation",
